@@ -122,11 +122,8 @@ func (i *Input) WriteTo(buf io.Writer) (n int64, err error) {
 		return
 	}
 
-	if err = binary.Write(buf, binary.LittleEndian, i.Sequence); err != nil {
-		return
-	}
-
-	n += int64(binary.Size(i.Sequence))
+	j, err = writeLE(buf, uint64(i.Sequence), 4)
+	n += int64(j)
 	return
 }
 
